@@ -306,6 +306,7 @@ class FakeProcess:
         self._started = True
         self.pid = s.new_pid()
         s.procs[self.pid] = self
+        s.main_loaded[self.pid] = set(s.main_loaded.get(s.me().pid, ()))
         cfg = s.proc_config(self)
         self.blocks_sigterm = cfg.get("blocks_sigterm", False)
 
@@ -646,6 +647,12 @@ class FakeSocket:
     def _released(self):
         if self.listener is not None and not [h for h in self.listener.handles if not h.closed]:
             self.listener.closed = True
+            # connections that were completed by the kernel but never accepted are reset when the listening socket goes away
+            for pend in self.listener.backlog:
+                pend.closed = True
+                if pend.peer is not None:
+                    pend.peer.reset = True
+            del self.listener.backlog[:]
         ep = self.ep
         if ep is not None and not ep.open_handles():
             ep.closed = True
@@ -831,6 +838,24 @@ class _SysModule:
         return getattr(sys, name)
 
 
+USER_MAIN = "/virtual/user_main_script.py"
+
+
+def _run_path(path, run_name=None, **kw):
+    """runpy.run_path as _run_backend uses it: records that this process has executed that script as its main module."""
+    s = S()
+    s.main_loaded.setdefault(s.me().pid, set()).add(path)
+    return {}
+
+
+def main_script_loaded():
+    """Has the current process got the user's main script as (new) main module?  The parent has by definition; a process
+    spawned through multiprocessing inherits it (spawn re-imports the parent's main module); a remote backend only if
+    _run_backend ran the script (main_path)."""
+    s = S()
+    return USER_MAIN in s.main_loaded.get(s.me().pid, ())
+
+
 def sim_foreign_raise(tid, exception):
     s = S()
     n = s.set_async_exc(tid, exception)
@@ -866,6 +891,7 @@ def install(s):
     s.refuse_connects = set()
     s.sock_transfers = []
     s.proc_config = lambda proc: {}
+    s.main_loaded = {s.main.pid: {USER_MAIN}}
     s.recv_cut = lambda sock, avail: 0
 
     th, mpx, so, osx, sg, tm = _make_threading(), _make_mp(), _SocketModule(), _OSModule(), _SignalModule(), _TimeModule()
@@ -876,7 +902,7 @@ def install(s):
         (process, "threading", th), (process, "mp", mpx), (process, "os", osx), (process, "foreign_raise", sim_foreign_raise),
         (remote, "threading", th), (remote, "mp", mpx), (remote, "os", osx), (remote, "socket", so), (remote, "signal", sg),
         (remote, "foreign_raise", sim_foreign_raise),
-        (remote, "runpy", types.SimpleNamespace(run_path=lambda *a, **k: {})), (remote, "sys", _SysModule()),
+        (remote, "runpy", types.SimpleNamespace(run_path=_run_path)), (remote, "sys", _SysModule()),
         (pprocess, "mp", mpx), (premote, "mp", mpx), (premote, "socket", so),
         (pool, "threading", th), (pool, "mp", mpx), (pool, "time", tm), (pool, "foreign_raise", sim_foreign_raise),
         (rserver, "threading", th), (rserver, "os", osx), (rserver, "socket", so), (rserver, "signal", sg), (rserver, "foreign_raise", sim_foreign_raise),
